@@ -86,6 +86,22 @@ pub fn scenarios() -> Vec<Scenario> {
         },
         Scenario { name: "delete-same-row", what: "two deleters of the same row", setup: base(), clients: vec![vec![auto("DELETE FROM a WHERE k = 1")], vec![auto("DELETE FROM a WHERE k = 1")]], tables: vec!["a", "b"], cfg },
         Scenario { name: "increment-same-row", what: "two read-modify-write updates of the same row", setup: base(), clients: vec![vec![auto("UPDATE a SET v = v + 1 WHERE k = 1")], vec![auto("UPDATE a SET v = v + 1 WHERE k = 1")]], tables: vec!["a", "b"], cfg },
+        Scenario {
+            name: "update-same-row-different-columns",
+            what: "two updaters of different columns of the same row",
+            setup: vec!["CREATE TABLE c3 (id INT, a INT, b INT)".into(), "INSERT INTO c3 VALUES (1, 0, 0), (2, 0, 0)".into()],
+            clients: vec![vec![auto("UPDATE c3 SET a = 5 WHERE id = 1")], vec![auto("UPDATE c3 SET b = 6 WHERE id = 1")]],
+            tables: vec!["c3"],
+            cfg,
+        },
+        Scenario {
+            name: "update-vs-delete-same-table",
+            what: "an update of one row and a delete of another row of the same table",
+            setup: vec!["CREATE TABLE c3 (id INT, a INT, b INT)".into(), "INSERT INTO c3 VALUES (1, 0, 0), (2, 0, 0)".into()],
+            clients: vec![vec![auto("UPDATE c3 SET a = 5 WHERE id = 1")], vec![auto("DELETE FROM c3 WHERE id = 2")]],
+            tables: vec!["c3"],
+            cfg,
+        },
         Scenario { name: "split-vs-scan", what: "an insert that splits the root leaf (13th row of 300 B) and a full scan", setup: big(12), clients: vec![vec![auto(&format!("INSERT INTO s VALUES (100, '{}')", "z".repeat(300)))], vec![auto("SELECT k FROM s")]], tables: vec!["s"], cfg },
         Scenario {
             name: "two-splitting-inserters",
@@ -115,6 +131,22 @@ pub fn scenarios() -> Vec<Scenario> {
         Scenario { name: "vacuum-vs-scan", what: "VACUUM (after a delete and an update left garbage) and a reader", setup: { let mut v = base(); v.push("DELETE FROM a WHERE k = 2".into()); v.push("UPDATE a SET v = 11 WHERE k = 1".into()); v }, clients: vec![vec![COp::Vacuum], vec![auto("SELECT * FROM a")]], tables: vec!["a", "b"], cfg },
         Scenario { name: "flush-vs-insert", what: "a checkpoint (flush) and an insert", setup: base(), clients: vec![vec![COp::Flush], vec![auto("INSERT INTO a VALUES (3, 30)")]], tables: vec!["a", "b"], cfg },
         Scenario { name: "flush-vs-scan", what: "a checkpoint (flush) and a reader of a 4-page table", setup: big(40), clients: vec![vec![COp::Flush], vec![auto("SELECT k FROM s")]], tables: vec!["s"], cfg },
+        Scenario {
+            name: "eviction-overflow-inserters",
+            what: "two inserts of 9000-byte values (three-page overflow chains) into two 4-page tables under a 12-page cache",
+            setup: { let mut v = big(40); v.extend(big_named("r", 40)); v },
+            clients: vec![vec![auto(&format!("INSERT INTO s VALUES (100, '{}')", "z".repeat(9000)))], vec![auto(&format!("INSERT INTO r VALUES (100, '{}')", "y".repeat(9000)))]],
+            tables: vec!["s", "r"],
+            cfg: Cfg { cache: 12, ..cfg },
+        },
+        Scenario {
+            name: "eviction-overflow-insert-vs-scan",
+            what: "an insert of a 9000-byte value and a scan of another 4-page table under a 12-page cache",
+            setup: { let mut v = big(40); v.extend(big_named("r", 40)); v },
+            clients: vec![vec![auto(&format!("INSERT INTO s VALUES (100, '{}')", "z".repeat(9000)))], vec![auto("SELECT k FROM r")]],
+            tables: vec!["s", "r"],
+            cfg: Cfg { cache: 12, ..cfg },
+        },
         Scenario {
             name: "three-clients",
             what: "two inserters on different tables and a reader",
@@ -212,8 +244,9 @@ pub fn fresh_db(sc: &Scenario) -> Result<(Arc<Database>, std::path::PathBuf), St
 pub fn audit(db: &Database, sc: &Scenario) -> String {
     let mut parts = vec![];
     for t in &sc.tables {
-        let cols = if *t == "s" || *t == "r" { "k" } else { "*" };
-        let o = exec_out(db.execute(&format!("SELECT {cols} FROM {t}")).map_err(|e| e.to_string()));
+        // full rows: long values are shown abbreviated (prefix + length) by Val::show, so an unreadable or
+        // truncated overflow chain is visible in the outcome
+        let o = exec_out(db.execute(&format!("SELECT * FROM {t}")).map_err(|e| e.to_string()));
         parts.push(format!("{t}={}", norm(&o)));
     }
     parts.join(" ")
@@ -261,6 +294,21 @@ pub fn merges(lens: &[usize]) -> Vec<Vec<usize>> {
     out
 }
 
+/// Final state as seen now and again after a clean close and reopen (what reached the disk).
+pub fn audit_twice(db: Arc<Database>, dir: &std::path::Path, sc: &Scenario) -> String {
+    let now = audit(&db, sc);
+    drop(db);
+    let p = Db::path_in(dir);
+    match Database::open(&p, sc.cfg.to_db()) {
+        Ok(db2) => {
+            let again = audit(&db2, sc);
+            drop(db2);
+            if again == now { now } else { format!("{now} || AFTER REOPEN: {again}") }
+        }
+        Err(e) => format!("{now} || REOPEN FAILED: {e}"),
+    }
+}
+
 pub fn outcome_string(results: &[Vec<String>], audit: &str) -> String {
     format!("{} || final: {audit}", results.iter().enumerate().map(|(i, r)| format!("T{i}: {}", r.join(" ; "))).collect::<Vec<_>>().join(" | "))
 }
@@ -280,8 +328,7 @@ pub fn serial_outcomes(sc: &Scenario) -> Result<BTreeMap<String, Vec<usize>>, St
             let (r, _) = run_ops(&db, t);
             results[*c].extend(r);
         }
-        let a = audit(&db, sc);
-        drop(db);
+        let a = audit_twice(db, &dir, sc);
         let _ = std::fs::remove_dir_all(&dir);
         out.entry(outcome_string(&results, &a)).or_insert(order);
     }
